@@ -1,5 +1,6 @@
 import IGVerif.Gen.Facts
 import IGVerif.Spec.Symbols
+import IGVerif.Proofs.DenoteLeaves
 /-! C01 — components and combinations are parsed exactly as written. -/
 namespace IGVerif.C01
 open IGVerif
@@ -17,5 +18,38 @@ theorem simple_wiring :
 
 /-- T: the statement has the 27 fields the models index. -/
 theorem field_count : Gen.statementFields.length = 27 := by decide
+
+/-- **Nothing annotated is lost, nothing un-annotated appears**: the leaves of the tree a
+    component's content denotes are exactly the texts written in it, in source order — for
+    every content: parenthesised combinations, same-operator chains, shared text, several
+    combinations in one component -/
+theorem leaves_are_the_annotated_texts (e : Expr) (sl sr : List Str) : leafTextsP (denoteE sl sr e) = e.texts :=
+  leaves_denoteE e sl sr
+
+/-- a chain of one operator associates to the left -/
+theorem same_operator_chain_associates_left (o : Op3) (a b c : Expr) (sl sr : List Str) :
+    denoteE sl sr (.chain o a b [c]) =
+      .comb o.str sl sr {} [] (.comb o.str [] [] {} [] (denoteE [] [] a) (denoteE [] [] b)) (denoteE [] [] c) :=
+  chain_left_assoc o a b c sl sr
+
+/-- parentheses bind as written -/
+theorem parentheses_bind (o₁ o₂ : Op3) (a b c : Expr) :
+    denoteE [] [] (.comb o₁ a (.comb o₂ b c)) =
+      .comb o₁.str [] [] {} [] (denoteE [] [] a) (.comb o₂.str [] [] {} [] (denoteE [] [] b) (denoteE [] [] c)) :=
+  parentheses_bind_as_written o₁ o₂ a b c
+
+/-- text written outside an inner combination sits on that combination (shared by its values) -/
+theorem shared_text_belongs_to_the_combination (l r : Str) (o : Op3) (a b : Expr) :
+    denoteE [] [] (.shared (some l) (.comb o a b) (some r)) =
+      .comb o.str [l] [r] {} [] (denoteE [] [] a) (denoteE [] [] b) :=
+  shared_text_on_combination l r o a b
+
+/-- separate annotations of one component type are joined by the implicit conjunction, in
+    source order -/
+theorem separate_annotations_implicit_conjunction (h₁ h₂ : Hdr) (o₁ o₂ : Bool) (e₁ e₂ : Expr) (f : Nat)
+    (hf₁ : h₁.sym.simple = some f) (hf₂ : h₂.sym.simple = some f) :
+    denoteS (.mk [.ann h₁ o₁ e₁, .ann h₂ o₂ e₂]) =
+      sortFields [(f, combineN opBAND ((denoteE [] [] e₁).withMeta (hdrMeta h₁)) ((denoteE [] [] e₂).withMeta (hdrMeta h₂)))] := by
+  simp [denoteS, denoteSimple, denoteCombos, denoteNested, hf₁, hf₂, addField]
 
 end IGVerif.C01
